@@ -92,6 +92,24 @@ def analyse(ctx, P, R1, R2):
     return total
 
 
+def escape(ctx, P, R4):
+    fns = [f for f in P.fns.values() if f.brecord == MC and f.kind == 'method']
+    n = 0
+    for f in sorted(fns, key=lambda g: g.id):
+        la = lockset.LockAnalysis(f)
+        if not la.guard_vars:
+            continue          # helpers that run inside their caller's critical section
+        E = lockset.EscapeAnalysis(f, la, TABLE)
+        tag = f.record.split('<')[-1].split('::')[-1].rstrip('>')
+        for ref in sorted(E.tainted):
+            n += 1
+            bad = [b for b in E.bad if b[0] == ref]
+            ctx.check(not bad, R4, '%s[%s]:%s' % (f.short, tag, ref.split('@')[0][2:]),
+                      'iterator/reference into guarded state is used after the lock it was obtained under was released (check-then-act across a lock gap)',
+                      f.loc(bad[0][1]) if bad else f.where)
+    return n
+
+
 def guard_table(ctx, P, R3):
     """the RAII guards really take the lock in the mode the table assumes and release it"""
     exp = {
@@ -154,8 +172,11 @@ def run(ctx, extra_defs=()):
     R1 = ctx.rule('C09.R1', 'every access to guarded mem_cache state holds access_lock (writes exclusive; lru: exclusive or shared+lru_mutex)')
     R2 = ctx.rule('C09.R2', 'fetch (shared lock) writes nothing but LRU state')
     R3 = ctx.rule('C09.R3', 'RAII guards acquire in the assumed mode and release in the destructor; primitives map to the matching pthread call')
+    R4 = ctx.rule('C09.R4', 'no iterator / reference into guarded state outlives the critical section it was obtained in')
     analyse(ctx, P, R1, R2)
     guard_table(ctx, P, R3)
+    escape(ctx, P, R4)
+    ctx.floor(R4, 8)
     ctx.floor(R1, 120)
     ctx.floor(R2, 10)
     ctx.floor(R3, 10)
